@@ -4,6 +4,7 @@ import re
 import sys
 
 from .. import parser, spaces, sweep
+from .c05 import expand as _expand
 
 PROP = "C20"
 CHUNK = 150
@@ -75,8 +76,10 @@ def space(tier):
     if tier == "thorough":
         parts = [spaces.block_space("core", 3), spaces.ProductSpace("B(ext,3)", SIGMA_EXT, 3), spaces.block_space("wide", 2)]
     else:
-        parts = [spaces.block_space("core", 2), spaces.ProductSpace("B(ext,2)", SIGMA_EXT, 2), spaces.block_space("wide", 2)]
+        parts = [spaces.block_space("core", 2), spaces.ProductSpace("B(ext,2)", SIGMA_EXT, 2), spaces.block_space("wide", 1)]
     parts.append(spaces.ListSpace("frontmatter", _fm_docs()))
+    # inline constructs in the contexts extensions hook into (paragraph, heading, list item, heading in a list item)
+    parts += spaces.inline_wide_space(3 if tier == "thorough" else 2, (0, 2, 3, 5))
     return spaces.UnionSpace(f"ext-{tier}", parts)
 
 
@@ -118,8 +121,12 @@ def _disabled_invariant(S, tokens, text):
             return "markdown-strikethrough"
         if name in ("uri-autolink", "email-autolink") and "markdown-extended-autolinks" not in S:
             ln, col = t.line_number, t.column_number
-            if 1 <= ln <= len(lines) and (col - 1 >= len(lines[ln - 1]) or lines[ln - 1][col - 1] != "<"):
-                return "markdown-extended-autolinks"
+            if 1 <= ln <= len(lines):
+                raw, ex = lines[ln - 1], _expand(lines[ln - 1])
+                at_raw = col - 1 < len(raw) and raw[col - 1] == "<"
+                at_exp = col - 1 < len(ex) and ex[col - 1] == "<"
+                if not (at_raw or at_exp) and "<" not in raw:
+                    return "markdown-extended-autolinks"
         if name in ("raw-html", "html-block", "text") and "markdown-disallow-raw-html" not in S:
             body = getattr(t, "raw_tag", None) or getattr(t, "token_text", "") or ""
             if name != "text" and "&lt;" in body and "&lt;" not in text:
